@@ -1,4 +1,5 @@
 import DriverLib.Basic
+import DriverLib.ArgConv
 import QV.Model.Unitaries
 open Lean Drv QV QV.Unitaries
 
@@ -202,6 +203,7 @@ def handle (op : String) (j : Json) : Option (R Json) :=
   | "c04.rotate_rho_dict" => some (rotateRhoDictOp j)
   | "c04.inner_prod_dict" => some (innerProdDictOp j)
   | "c04.rho_probs_dict" => some (rhoProbsDictOp j)
+  | "c04.create_dict_arg" => some (Drv.ArgConv.createDictArgOp j)
   | _ => none
 
 end Drv.C04
